@@ -9,6 +9,7 @@ validation count.  `ok = true` (no assertion failure, enough fuel) is establishe
 skeleton; here it is an hypothesis, and the example at the end exhibits a concrete run satisfying it.
 -/
 import Xrfmv.Lemmas.BuildIndex
+import Xrfmv.Lemmas.BuildIndexOk
 
 namespace Xrfmv.Props.C07
 open Xrfmv.BuildIndex Xrfmv.Gen.Split Xrfmv.Gen.Refill
@@ -56,6 +57,22 @@ theorem indices_follow_rows :
     leftChild.xval = leftChild.yval ∧ rightChild.xval = rightChild.yval ∧
     indicesFollowKept = true ∧ keptIsSuffix = true ∧ movedIsPrefix = true := by
   decide
+
+/-- **C07 (the construction succeeds)** Without a forced split count, for every sort oracle meeting the permutation
+contract and every overlap oracle leaving two unshared samples at each node that is split (C06: implied by
+`(1 - 2f)·max_leaf_size ≥ 4`), the index-level construction with fuel `n + 1` never fails an assertion: `ok` – the
+hypothesis of the theorems above – holds. -/
+theorem construction_ok (cfg : Cfg) (O : Oracles) (hns : cfg.nsplits = none) (hc : Contracts O) (hov : OvOk cfg O) (n : Nat) :
+    (build cfg O (n + 1) [] (List.range n) true 0).1.ok = true :=
+  index_build_ok cfg O hns hc hov (n + 1) [] (List.range n) true 0 (by simp)
+
+/-- **C07 (exactly once, unconditional form)** Zero overlap, `max_leaf_size ≥ 1`, no forced splits: for every `n` and every
+oracle meeting the contracts the leaves' centers and moved samples are a permutation of `0..n-1`. -/
+theorem every_sample_exactly_once_unconditional (cfg : Cfg) (O : Oracles) (hns : cfg.nsplits = none) (hL : 1 ≤ cfg.maxLeaf)
+    (hc : Contracts O) (hz : ∀ n, O.ov n = 0) (n : Nat) :
+    (build cfg O (n + 1) [] (List.range n) true 0).1.all.Perm (List.range n) := by
+  have hov : OvOk cfg O := fun m hm => ⟨0, by rw [hz]; rfl, by omega⟩
+  exact (every_sample_exactly_once cfg O hc hz (n + 1) n (construction_ok cfg O hns hc hov n)).1
 
 /-- Non-vacuity: five samples, `max_leaf_size = 2`, identity sort/permutation oracles, refill size 1: the run is
 `ok` and splits twice. -/
